@@ -26,6 +26,11 @@ WellFormed(G) ==
    /\ \A u \in Nodes(G) : Len(G.adj[u]) = G.n /\ G.adj[u][u] = 0
    /\ \A u, v \in Nodes(G) : G.adj[u][v] = G.adj[v][u]
 
+(* directed graphs use the same record with an asymmetric adj (adj[u][v] = code of arc u -> v) *)
+WellFormedD(G) ==
+   /\ Len(G.lab) = G.n /\ Len(G.hc) = G.n /\ Len(G.adj) = G.n
+   /\ \A u \in Nodes(G) : Len(G.adj[u]) = G.n /\ G.adj[u][u] = 0
+
 (* ------------------------------ components ------------------------------ *)
 RECURSIVE ReachFrom(_, _)
 ReachFrom(G, X) == LET Y == X \cup {v \in Nodes(G) : \E u \in X : HasEdge(G, u, v)}
@@ -58,7 +63,8 @@ ExtMaps(P, H, m, k, mode) ==
                 h \in { x \in Nodes(H) :
                           /\ \A i \in 1..(k - 1) : m[i] # x
                           /\ OKN(mode, P, H, k, x)
-                          /\ \A i \in 1..(k - 1) : OKE(mode, P.adj[i][k], H.adj[m[i]][x]) } }
+                          /\ \A i \in 1..(k - 1) : /\ OKE(mode, P.adj[i][k], H.adj[m[i]][x])
+                                                    /\ OKE(mode, P.adj[k][i], H.adj[x][m[i]]) } }   \* both directions: adj may be asymmetric (digraphs)
 
 (* the set C06 talks about *)
 Monos(P, H)      == ExtMaps(P, H, <<>>, 1, "mono")
